@@ -35,7 +35,7 @@ ANCHORS = [
     "stereomolgraph.graph2rdmol:set_bond_orders",
 ]
 REQUIRED_ANCHORS = ANCHORS
-REQUIRED = ["structural_cases", "chemical_cases", "rdkit_path_cases", "contract_evaluations", "orders_checked", "aromatic_molecules", "cumulated_molecules"]
+REQUIRED = ["structural_cases", "chemical_cases", "rdkit_path_cases", "contract_evaluations", "orders_checked", "aromatic_molecules", "cumulated_molecules", "random_chain_molecules"]
 CASE_TIMEOUT = 20
 SUPPORTED = [1, 5, 6, 7, 8, 9, 14, 15, 16, 17, 32, 35, 53, 78]
 STD = {1: {1}, 5: {3}, 6: {4}, 7: {3}, 8: {2}, 9: {1}, 14: {4}, 15: {3, 5}, 16: {2, 6}, 17: {1}, 35: {1}, 53: {1}}
@@ -76,11 +76,45 @@ def setup(ctx):
     g2r.connectivity2bond_orders = wrapped  # alias bound at import time in graph2rdmol
 
 
+def random_chain(rng):
+    """random neutral closed-shell unsaturated chain (cumulated / conjugated / isolated multiple bonds in any mix,
+    optional methyl or heteroatom branches); valences respected by construction, hydrogens left to RDKit"""
+    VAL = {"C": 4, "N": 3, "O": 2, "S": 2}
+    L = rng.randint(2, 9)
+    atoms = [rng.choice("CCCCCCNO") for _ in range(L)]
+    if rng.random() < 0.5:
+        atoms[0] = rng.choice("CCCNOS")
+        atoms[-1] = rng.choice("CCCNOS")
+    used = [0] * L
+    bonds = []
+    for i in range(L - 1):
+        room = min(VAL[atoms[i]] - used[i], VAL[atoms[i + 1]] - (1 if i + 2 < L else 0))
+        if room < 1:
+            return None
+        b = rng.choice([o for o in (1, 1, 2, 2, 2, 3) if o <= room])
+        bonds.append(b)
+        used[i] += b
+        used[i + 1] += b
+    out = ""
+    for i, a in enumerate(atoms):
+        out += a
+        if a == "C" and VAL[a] - used[i] >= 1 and rng.random() < 0.15:
+            out += rng.choice(["(C)", "(F)", "(O)", "(N)", "(Cl)"])
+        if i < L - 1:
+            out += {1: "", 2: "=", 3: "#"}[bonds[i]]
+    return out
+
+
 def gen_cases(ctx):
     rng = ctx.rng
     n = ctx.n(9600, 120000)
     for i in range(n):
         k = i % 6
+        if k == 4:
+            smi = random_chain(rng)
+            if smi:
+                yield {"kind": "chemical", "smiles": smi, "oseed": rng.randrange(1 << 30), "n_orders": 6 if ctx.tier == "quick" else 16, "source": "random-chain"}
+                continue
         if k < 3:
             na = rng.randint(1, 9)
             dens = rng.choice([0.0, 0.15, 0.3, 0.5, 1.0])
@@ -157,20 +191,28 @@ def _mol(smiles):
     for b in m.GetBonds():
         ac[b.GetBeginAtomIdx(), b.GetEndAtomIdx()] = ac[b.GetEndAtomIdx(), b.GetBeginAtomIdx()] = 1
     arom = any(a.GetIsAromatic() for a in m.GetAtoms())
-    cumul = any(a.GetDegree() == 2 and sum(1 for b in a.GetBonds() if b.GetBondType() == Chem.BondType.DOUBLE) == 2 for a in m.GetAtoms())
+    cumul = sum(1 for a in m.GetAtoms() if a.GetDegree() == 2 and sum(1 for b in a.GetBonds() if b.GetBondType() == Chem.BondType.DOUBLE) == 2)
     multiple = any(b.GetBondTypeAsDouble() > 1 for b in m.GetBonds())
     return m, els, ac, arom, cumul, multiple
 
 
 def _chemical(ctx, case):
-    m, els, ac, arom, cumul, multiple = _mol(case["smiles"])
+    try:
+        m, els, ac, arom, cumul, multiple = _mol(case["smiles"])
+    except Exception:  # noqa: BLE001  (generated SMILES that RDKit rejects)
+        ctx.count("skipped:rdkit-rejects-generated-smiles")
+        return
     n = len(els)
     rng = random.Random(case["oseed"])
     ctx.count("chemical_cases")
+    if case.get("source") == "random-chain":
+        ctx.count("random_chain_molecules")
     if arom:
         ctx.count("aromatic_molecules")
     if cumul:
         ctx.count("cumulated_molecules")
+    if cumul >= 2:
+        ctx.count("multi_cumulated_molecules")
     results = {}
     for k in range(case["n_orders"]):
         perm = list(range(n))
@@ -191,7 +233,7 @@ def _chemical(ctx, case):
         bom = np.asarray(bom)
         val = bom.sum(axis=1)
         bad = [(int(perm[i]), int(e2[i]), int(val[i])) for i in range(n) if int(val[i]) not in STD.get(e2[i], set())]
-        tag = "heteroaromatic" if (arom and any(e in (7, 8, 16) for e in els)) else "aromatic" if arom else "cumulated" if cumul else "plain"
+        tag = "heteroaromatic" if (arom and any(e in (7, 8, 16) for e in els)) else "aromatic" if arom else "multi-cumulated" if cumul >= 2 else "cumulated" if cumul else "plain"
         results[k] = not bad and not any(charges) and not any(unpaired)
         if bad or any(charges) or any(unpaired):
             dep = "order-dependent" if any(results.values()) else "identity-order" if k == 0 else "all-orders-so-far"
